@@ -1000,6 +1000,10 @@ def with_parameter(array, parameter, value, highlevel=True, behavior=None):
         out = layout.replace_partitions(
             x.withparameter(parameter, value) for x in layout.partitions
         )
+    elif isinstance(layout, ak.layout.Record):
+        out = ak.layout.Record(
+            layout.array.withparameter(parameter, value), layout.at
+        )
     else:
         out = layout.withparameter(parameter, value)
 
